@@ -1,10 +1,8 @@
 package c05
 
 import (
-	"archive/zip"
 	"bytes"
 	"fmt"
-	"io"
 	"os"
 	"os/signal"
 	"path/filepath"
@@ -12,10 +10,12 @@ import (
 	"strings"
 	"syscall"
 	"testing"
+	"time"
 
 	"github.com/zerx-lab/wordZero/pkg/document"
 	"pgregory.net/rapid"
 
+	"wzverif/internal/foreign"
 	"wzverif/internal/gen"
 	"wzverif/internal/kit"
 	"wzverif/internal/opc"
@@ -25,7 +25,7 @@ import (
 func TestMain(m *testing.M) {
 	document.SetGlobalLevel(document.LogLevelSilent)
 	signal.Ignore(syscall.SIGXFSZ)
-	kit.TestMain(m, 15, 120)
+	kit.TestMain(m, 16, 96)
 }
 
 // Case: a document (op list), a size band, and how the fault offsets are chosen.
@@ -44,62 +44,41 @@ type Case struct {
 	Stages []Stage `json:"stages,omitempty"`
 	// NoBefore: no ToBytes call between the last edit and the final save (the file is compared with ToBytes taken right after).
 	NoBefore bool `json:"nobefore,omitempty"`
+
+	// Base says what is opened when the document is an opened one: "" = the library's minimal package (with Extra);
+	// "own" = the package the library writes for the document built by Pre (that document stays alive as a second
+	// object); "foreign" = the package of another producer described by Foreign. Extra entries are added in every case.
+	Base    string           `json:"base,omitempty"`
+	Pre     []ops.Op         `json:"pre,omitempty"`
+	Foreign *foreign.Package `json:"foreign,omitempty"`
+	OpenVia string           `json:"openvia,omitempty"` // "" = OpenFromMemory | "path" = written to a file and opened with Open (target "inplace" saves back to that file)
+	// Two: a second, independent Document object (built by Other) exists next to the judged one; stages with Obj=1 save
+	// and edit it, and it is saved once more between two final saves of the judged object.
+	Two   bool     `json:"two,omitempty"`
+	Other []ops.Op `json:"other,omitempty"`
+	// Light: a sparse sample of fault offsets instead of the enumeration (cases that are about the history / the target).
+	Light bool `json:"light,omitempty"`
+	// FaultOver: the faulty saves of the enumeration go to one path without removing what the previous attempt left.
+	FaultOver bool `json:"faultover,omitempty"`
 }
 
 // Stage is one earlier save of the same object followed by edits.
 type Stage struct {
-	Path     string   `json:"path"`               // main: the path of the final save (when that is a plain file path) | prev: the path of the previous stage | new: a path not used before | newdir: a new path in new directories
+	Obj      int      `json:"obj,omitempty"`      // which object is saved and edited: 0 the judged one, 1 the second object (when the case has one)
+	Path     string   `json:"path"`               // rel: a relative path in new directories (working directory = scratch directory) | bad: a target that cannot hold the file (/dev/full, a directory, a path below a regular file): Save must fail, the object is used on | main: the path of the final save (when that is a plain file path) | prev: the path of the previous stage | new: a path not used before | newdir: a new path in new directories
 	Fault    int      `json:"fault,omitempty"`    // 0: no injected fault; k>0: this save runs with a write fault at (k-1) permille of the package size and is then repeated without a fault on the same path
 	NoBefore bool     `json:"nobefore,omitempty"` // no ToBytes call before this save (compared with ToBytes taken right after only); ignored for a fault stage
 	Ops      []ops.Op `json:"ops,omitempty"`      // edits applied after this save (shared op kinds plus the local kinds c05big, c05rmlast, c05rmnote)
 }
 
 type Extra struct {
-	Name string `json:"name"` // a name ending in "/" is a directory entry
-	Data string `json:"data"` // "" = zero-length part
+	Name string `json:"name"`           // a name ending in "/" is a directory entry
+	Data string `json:"data"`           // "" = zero-length part
+	Size int    `json:"size,omitempty"` // > 0: Size bytes of generated, poorly compressible data instead of Data
 }
 
 var extraNames = []string{"word/", "customXml/", "customXml/item1.xml", "customXml/itemProps1.xml", "word/theme/theme1.xml", "word/fontTable.xml", "docProps/custom.xml",
 	"word/media/", "word/embeddings/oleObject1.bin", "word/vbaProject.bin", "word/glossary/document.xml", "META-INF/", "mimetype", "word/webSettings.xml", "extra.dat"}
-
-// withExtra re-zips a package adding the extra entries (after the original ones).
-func withExtra(b []byte, extra []Extra) ([]byte, error) {
-	zr, err := zip.NewReader(bytes.NewReader(b), int64(len(b)))
-	if err != nil {
-		return nil, err
-	}
-	var out bytes.Buffer
-	zw := zip.NewWriter(&out)
-	have := map[string]bool{}
-	for _, f := range zr.File {
-		rc, err := f.Open()
-		if err != nil {
-			return nil, err
-		}
-		data, _ := io.ReadAll(rc)
-		rc.Close()
-		w, _ := zw.Create(f.Name)
-		w.Write(data)
-		have[f.Name] = true
-	}
-	for _, e := range extra {
-		if have[e.Name] {
-			continue
-		}
-		have[e.Name] = true
-		w, err := zw.Create(e.Name)
-		if err != nil {
-			return nil, err
-		}
-		if !strings.HasSuffix(e.Name, "/") {
-			w.Write([]byte(e.Data))
-		}
-	}
-	if err := zw.Close(); err != nil {
-		return nil, err
-	}
-	return out.Bytes(), nil
-}
 
 var cfg = &ops.Config{Classes: gen.AllClasses, Weights: weights()}
 
@@ -108,8 +87,10 @@ func weights() map[string]int {
 	for k, v := range ops.DefaultWeights {
 		w[k] = v
 	}
-	for _, k := range []string{"reopen", "tpldoc", "tpldoc2", "tplstr", "md", "save", "rmpara", "rmparaat", "rmelemat"} {
-		delete(w, k)
+	// calls that replace the current document object (the replaced ones stay alive and are saved as well) and
+	// ToBytes calls in the middle of the history: present, but rare
+	for _, k := range []string{"reopen", "tpldoc", "tpldoc2", "tplstr", "md", "save"} {
+		w[k] = 1
 	}
 	return w
 }
@@ -130,27 +111,36 @@ var stageCfg = &ops.Config{Classes: gen.AllClasses, Weights: map[string]int{
 
 // genStageOp draws one edit between two saves.
 func genStageOp(t *rapid.T) ops.Op {
-	switch rapid.IntRange(0, 19).Draw(t, "stagek") {
+	switch rapid.IntRange(0, 21).Draw(t, "stagek") {
 	case 0, 1: // a large paragraph (4-48 KB of poorly compressible text): the package grows by several KB
-		return ops.Op{K: "c05big", I: []int{rapid.IntRange(4, 48).Draw(t, "bigkb"), rapid.IntRange(0, 999).Draw(t, "bigpat")}}
+		return ops.Op{K: "c05big", I: []int{rapid.IntRange(4, 48).Draw(t, "bigkb"), rapid.IntRange(0, 999).Draw(t, "bigpat"), rapid.IntRange(0, 1).Draw(t, "bigmulti")}}
 	case 2, 3, 4: // drop the last body element: the package shrinks
 		return ops.Op{K: "c05rmlast"}
 	case 5:
-		return ops.Op{K: "c05rmnote", S: []string{rapid.SampledFrom([]string{"footnote", "endnote"}).Draw(t, "rmnk"), fmt.Sprint(rapid.IntRange(1, 4).Draw(t, "rmnid"))}}
+		return ops.Op{K: "c05rmnote", S: []string{rapid.SampledFrom([]string{"footnote", "endnote"}).Draw(t, "rmnk"), fmt.Sprint(rapid.IntRange(1, 12).Draw(t, "rmnid"))}}
+	case 6, 7: // 10th/11th picture or note, more than 64 paragraphs, a text longer than 64 KiB
+		return genCountOp(t)
 	}
 	return stageCfg.Op(t)
 }
 
-func genStages(t *rapid.T) []Stage {
-	n := rapid.SampledFrom([]int{0, 0, 1, 1, 1, 2, 2, 3, 4}).Draw(t, "nstages")
+func genStages(t *rapid.T, two bool) []Stage {
+	// 10-12 saves of one object are rare (the quick tier stays cheap)
+	n := rapid.SampledFrom([]int{0, 0, 0, 1, 1, 1, 1, 2, 2, 2, 3, 3, 4, 4, 10, 12}).Draw(t, "nstages")
 	var out []Stage
 	for i := 0; i < n; i++ {
-		st := Stage{Path: rapid.SampledFrom([]string{"main", "main", "main", "prev", "new", "new", "newdir"}).Draw(t, "spath")}
-		if rapid.IntRange(0, 3).Draw(t, "sfault") == 0 {
+		st := Stage{Path: rapid.SampledFrom([]string{"main", "main", "main", "prev", "prev", "new", "new", "newdir", "rel", "bad"}).Draw(t, "spath")}
+		if two && rapid.IntRange(0, 1).Draw(t, "sobj") == 1 {
+			st.Obj = 1
+		}
+		if st.Path != "bad" && rapid.IntRange(0, 3).Draw(t, "sfault") == 0 {
 			st.Fault = 1 + rapid.IntRange(0, 999).Draw(t, "sfaultpm")
 		}
 		st.NoBefore = rapid.Bool().Draw(t, "snobefore")
 		k := rapid.IntRange(0, 4).Draw(t, "snops")
+		if n >= 10 {
+			k = rapid.IntRange(0, 1).Draw(t, "snops1")
+		}
 		for j := 0; j < k; j++ {
 			st.Ops = append(st.Ops, genStageOp(t))
 		}
@@ -160,7 +150,12 @@ func genStages(t *rapid.T) []Stage {
 }
 
 func genCase(t *rapid.T) Case {
-	c := Case{Ops: cfg.History(t, 0, 12)}
+	c := Case{}
+	genSource(t, &c)
+	c.Ops = cfg.History(t, 0, 12)
+	if rapid.IntRange(0, 5).Draw(t, "countop") == 0 {
+		c.Ops = append(c.Ops, genCountOp(t))
+	}
 	switch rapid.IntRange(0, 3).Draw(t, "band") {
 	case 2:
 		c.Blob = rapid.IntRange(40, 90).Draw(t, "blob")
@@ -171,19 +166,18 @@ func genCase(t *rapid.T) Case {
 	for i := 0; i < n; i++ {
 		c.Sample = append(c.Sample, rapid.IntRange(0, 999).Draw(t, "permille"))
 	}
-	c.Target = rapid.SampledFrom([]string{"plain", "plain", "nested", "existing", "devfull", "parent-is-file", "is-dir"}).Draw(t, "target")
-	if rapid.IntRange(0, 2).Draw(t, "opened") == 0 {
-		n := rapid.IntRange(1, 5).Draw(t, "nextra")
-		for i := 0; i < n; i++ {
-			e := Extra{Name: rapid.SampledFrom(extraNames).Draw(t, "xname")}
-			if !strings.HasSuffix(e.Name, "/") {
-				e.Data = rapid.SampledFrom([]string{"", "", "<?xml version=\"1.0\"?><a/>", "\x00\x01binary\xff", " "}).Draw(t, "xdata")
-			}
-			c.Extra = append(c.Extra, e)
-		}
+	c.Target = rapid.SampledFrom(targetKinds).Draw(t, "target")
+	if c.OpenVia == "path" && rapid.IntRange(0, 2).Draw(t, "inplace") == 0 {
+		c.Target = "inplace" // open a file, edit, save back to it
 	}
-	c.Stages = genStages(t)
+	if rapid.IntRange(0, 3).Draw(t, "two") == 0 {
+		c.Two = true
+		c.Other = cfg.History(t, 0, 6)
+	}
+	c.Stages = genStages(t, c.Two)
 	c.NoBefore = rapid.Bool().Draw(t, "nobefore")
+	c.Light = rapid.IntRange(0, 2).Draw(t, "light") == 0
+	c.FaultOver = rapid.Bool().Draw(t, "faultover")
 	return c
 }
 
@@ -238,61 +232,51 @@ func trailing(b []byte) int {
 	return -1
 }
 
-// bigText gives kb*1024 characters of deterministic, poorly compressible text.
-func bigText(kb, pat int) string {
-	const alpha = "abcdefghijklmnopqrstuvwxyzABCDEFGHIJKLMNOPQRSTUVWXYZ0123456789 ."
-	v := uint32(pat)*2654435761 + 12345
-	b := make([]byte, kb*1024)
-	for i := range b {
-		v ^= v << 13
-		v ^= v >> 17
-		v ^= v << 5
-		b[i] = alpha[v&63]
-	}
-	return string(b)
+// kept remembers byte slices earlier ToBytes calls returned, with a private copy: what a caller holds must not change
+// when the same or another object is serialised or saved later.
+type kept struct {
+	what string
+	b    []byte
+	copy []byte
 }
 
-// doOp executes one edit: the local kinds here, everything else through the shared interpreter.
-func doOp(x *ops.Exec, op ops.Op) {
-	d := x.Doc
-	switch op.K {
-	case "c05big":
-		kb, pat := 8, 0
-		if len(op.I) > 1 {
-			kb, pat = op.I[0], op.I[1]
+type runState struct {
+	res  *kit.Result
+	kept []kept
+}
+
+func (rs *runState) keep(what string, b []byte) {
+	if len(b) == 0 || len(b) > 1<<19 {
+		return
+	}
+	if len(rs.kept) >= 8 {
+		rs.kept = rs.kept[1:]
+	}
+	rs.kept = append(rs.kept, kept{what, b, append([]byte(nil), b...)})
+}
+
+// checkKept fails F1 when a retained ToBytes result no longer has the bytes it was returned with.
+func (rs *runState) checkKept(when string) {
+	for i := range rs.kept {
+		k := &rs.kept[i]
+		if !bytes.Equal(k.b, k.copy) {
+			rs.res.Fail("C05.F1", "the byte slice ToBytes returned %s was changed by a later call (%s): Save and the bytes the caller holds disagree", k.what, when)
+			k.copy = append([]byte(nil), k.b...)
 		}
-		if kb < 1 || kb > 256 {
-			kb = 8
-		}
-		x.Paras = append(x.Paras, d.AddParagraph(bigText(kb, pat)))
-	case "c05rmlast":
-		if n := len(d.Body.Elements); n > 0 {
-			d.RemoveElementAt(n - 1)
-			x.Paras = d.Body.GetParagraphs()
-			x.Tables = d.Body.GetTables()
-		}
-	case "c05rmnote":
-		if len(op.S) > 1 {
-			if op.S[0] == "endnote" {
-				d.RemoveEndnote(op.S[1])
-			} else {
-				d.RemoveFootnote(op.S[1])
-			}
-		}
-	default:
-		x.Do(op)
 	}
 }
 
 // judgedSave is one Save without an injected fault, judged by F3 (nil) and F1 (the file is a complete package - nothing
 // follows its end record - whose part map equals the part map of ToBytes taken immediately before and after).
 // It returns the file size and the part map; ok=false when the case cannot go on.
-func judgedSave(res *kit.Result, doc *document.Document, path, what string, noBefore bool) (L int64, want map[string]string, ok bool) {
+func (rs *runState) judgedSave(doc *document.Document, tg target, what string, noBefore bool) (L int64, want map[string]string, ok bool) {
+	res := rs.res
 	// noBefore: ToBytes is NOT called before this Save (a ToBytes call refreshes the serialised parts the object keeps,
 	// which would hide a Save that relies on them); the file is then compared with ToBytes taken right after only.
 	if !noBefore {
-		before, err := doc.ToBytes()
-		if err != nil {
+		var before []byte
+		var err error
+		if p, _ := kit.Try(func() { before, err = doc.ToBytes() }); p != nil || err != nil {
 			res.Label("tobytes-error")
 			return 0, nil, false
 		}
@@ -301,11 +285,12 @@ func judgedSave(res *kit.Result, doc *document.Document, path, what string, noBe
 			res.Label("tobytes-unreadable") // C01's business
 			return 0, nil, false
 		}
+		rs.keep("before "+what, before)
 	} else {
 		what += ", no ToBytes call before it"
 		res.Label("oracle:tobytes-after-only")
 	}
-	serr, pan := saveWithLimit(doc, path, -1)
+	serr, pan := saveWithLimit(doc, tg, -1)
 	controls++
 	if pan != nil {
 		res.Fail("C05.F0", "%s: Save panicked: %v", what, pan)
@@ -313,12 +298,13 @@ func judgedSave(res *kit.Result, doc *document.Document, path, what string, noBe
 	}
 	res.Eval("C05.F3")
 	if serr != nil {
-		res.Fail("C05.F3", "%s: Save without any fault returned %v", what, serr)
+		res.Fail("C05.F3", "%s: Save (%s target) without any fault returned %v", what, tg.kind, serr)
 		return 0, nil, false
 	}
-	fb, _ := os.ReadFile(path)
-	after, err := doc.ToBytes()
-	if err != nil {
+	fb, _ := os.ReadFile(tg.read)
+	var after []byte
+	var err error
+	if p, _ := kit.Try(func() { after, err = doc.ToBytes() }); p != nil || err != nil {
 		if want == nil {
 			res.Label("tobytes-error")
 			return 0, nil, false
@@ -333,6 +319,8 @@ func judgedSave(res *kit.Result, doc *document.Document, path, what string, noBe
 				return 0, nil, false
 			}
 			am = nil
+		} else {
+			rs.keep("after "+what, after)
 		}
 	}
 	res.Eval("C05.F1")
@@ -342,13 +330,13 @@ func judgedSave(res *kit.Result, doc *document.Document, path, what string, noBe
 		ref, when = am, "right after"
 	}
 	if got, err := partMap(fb); err != nil {
-		res.Fail("C05.F1", "%s: Save returned nil but the file is not a readable package: %v", what, err)
+		res.Fail("C05.F1", "%s: Save (%s target) returned nil but the file is not a readable package: %v", what, tg.kind, err)
 		good = false
 	} else if d := sameParts(ref, got); d != "" {
-		res.Fail("C05.F1", "%s: Save returned nil but the file differs from ToBytes taken %s: %s", what, when, d)
+		res.Fail("C05.F1", "%s: Save (%s target) returned nil but the file differs from ToBytes taken %s: %s", what, tg.kind, when, d)
 		good = false
 	} else if tr := trailing(fb); tr != 0 {
-		res.Fail("C05.F1", "%s: Save returned nil but the file is not just the package: %d bytes follow its end record (-1: no end record at the end of the file)", what, tr)
+		res.Fail("C05.F1", "%s: Save (%s target) returned nil but the file is not just the package: %d bytes follow its end record (-1: no end record at the end of the file)", what, tg.kind, tr)
 		good = false
 	}
 	if want != nil && am != nil {
@@ -357,11 +345,33 @@ func judgedSave(res *kit.Result, doc *document.Document, path, what string, noBe
 			good = false
 		}
 	}
+	rs.checkKept(what)
 	return int64(len(fb)), ref, good
 }
 
-// saveWithLimit runs Save with the soft RLIMIT_FSIZE set to n (n<0: no limit).
-func saveWithLimit(doc *document.Document, path string, n int64) (err error, panicked interface{}) {
+// failingSave is one Save to a target that cannot hold the file: F2 demands an error.
+func (rs *runState) failingSave(doc *document.Document, tg target, what string) bool {
+	serr, pan := saveWithLimit(doc, tg, -1)
+	controls++
+	if pan != nil {
+		rs.res.Fail("C05.F0", "%s: Save panicked: %v", what, pan)
+		return false
+	}
+	rs.res.Eval("C05.F2")
+	if serr == nil {
+		rs.res.Fail("C05.F2", "%s: Save to %s target %q returned nil although the target cannot hold the file", what, tg.kind, tg.arg)
+	}
+	return true
+}
+
+// saveWithLimit runs Save with the soft RLIMIT_FSIZE set to n (n<0: no limit), in the target's working directory.
+func saveWithLimit(doc *document.Document, tg target, n int64) (err error, panicked interface{}) {
+	if tg.cwd != "" {
+		if e := os.Chdir(tg.cwd); e != nil {
+			return nil, "chdir: " + e.Error()
+		}
+		defer os.Chdir(homeDir)
+	}
 	var old syscall.Rlimit
 	if n >= 0 {
 		if e := syscall.Getrlimit(syscall.RLIMIT_FSIZE, &old); e != nil {
@@ -374,88 +384,162 @@ func saveWithLimit(doc *document.Document, path string, n int64) (err error, pan
 		}
 		defer syscall.Setrlimit(syscall.RLIMIT_FSIZE, &old)
 	}
-	p, st := kit.Try(func() { err = doc.Save(path) })
+	p, st := kit.Try(func() { err = doc.Save(tg.arg) })
 	if p != nil {
 		panicked = fmt.Sprintf("%v [%s]", p, st)
 	}
 	return
 }
 
-func run(c Case) *kit.Result {
-	res := &kit.Result{}
-	document.VerifResetGlobals()
-	dir, _ := os.MkdirTemp(kit.Scratch, "c05-")
-	defer os.RemoveAll(dir)
-	x := ops.NewExec(dir)
-	if len(c.Extra) > 0 {
-		// an opened document: the library's own minimal package + foreign entries
+func absTarget(kind, p string) target { return target{kind: kind, arg: p, read: p} }
+
+// build makes the judged document object. ok=false: nothing to save (a label says why).
+func build(res *kit.Result, c Case, dir string) (x *ops.Exec, sides []*document.Document, src string, ok bool) {
+	x = ops.NewExec(dir)
+	apply := func(list []ops.Op) bool {
+		for _, op := range list {
+			if p, _ := kit.Try(func() { doOp(x, op) }); p != nil {
+				res.Label("build-panicked") // C01/C09 report panics of the build ops; here the document is just an input
+				return false
+			}
+		}
+		return true
+	}
+	var pkg []byte
+	switch {
+	case c.Base == "own":
+		if !apply(c.Pre) {
+			return
+		}
+		var err error
+		if p, _ := kit.Try(func() { pkg, err = x.Doc.ToBytes() }); p != nil || err != nil {
+			res.Label("tobytes-error")
+			return
+		}
+		sides = append(sides, x.Doc) // the written object stays a valid object
+		res.Label("source:own-package-reopened")
+	case c.Base == "foreign" && c.Foreign != nil:
+		pkg = c.Foreign.Bytes()
+		res.Label("source:foreign-package")
+		if c.Foreign.Stored {
+			res.Label("foreign:stored-entries")
+		}
+		if c.Foreign.W != "w" || c.Foreign.OPCPrefix != "" {
+			res.Label("foreign:other-prefixes")
+		}
+	case len(c.Extra) > 0:
 		seed := document.New()
 		seed.AddParagraph("opened")
-		sb, err := seed.ToBytes()
-		if err != nil {
+		var err error
+		if pkg, err = seed.ToBytes(); err != nil {
 			res.Label("tobytes-error")
-			return res
+			return
 		}
-		fb, err := withExtra(sb, c.Extra)
+		res.Label("source:minimal-package-opened")
+	default:
+		res.Label("source:new")
+	}
+	if pkg != nil {
+		fb, err := withExtra(pkg, c.Extra)
 		if err != nil {
 			res.Label("extra-unzippable")
-			return res
+			return
 		}
-		var od *document.Document
-		var oerr error
-		if p, _ := kit.Try(func() { od, oerr = document.OpenFromMemory(io.NopCloser(bytes.NewReader(fb))) }); p != nil || oerr != nil || od == nil {
+		od, from := openPackage(fb, c.OpenVia, dir)
+		if od == nil {
 			res.Label("open-rejected") // C06's business; nothing to save
-			return res
+			return
 		}
+		src = from
 		x.Doc = od
+		rehandle(x)
 		res.Label("source:opened")
+		if src != "" {
+			res.Label("open:from-path")
+		} else {
+			res.Label("open:from-memory")
+		}
+		lower := map[string]bool{}
 		for _, e := range c.Extra {
 			if strings.HasSuffix(e.Name, "/") {
 				res.Label("extra:directory-entry")
-			} else if e.Data == "" {
+			} else if e.Data == "" && e.Size == 0 {
 				res.Label("extra:zero-length-part")
 			}
+			if e.Size >= 65536 {
+				res.Label("extra:part>=64KiB")
+			}
+			lower[strings.ToLower(e.Name)] = true
 		}
-	} else {
-		res.Label("source:new")
+		if len(lower) < len(c.Extra) {
+			res.Label("extra:names-differ-only-in-case")
+		}
+		if len(c.Extra) > 32 {
+			res.Label("extra:>32-entries")
+		}
 	}
-	for _, op := range c.Ops {
-		if p, _ := kit.Try(func() { doOp(x, op) }); p != nil {
-			res.Label("build-panicked")
-			return res // C01/C09 report panics of the build ops; here the document is just an input
-		}
+	if !apply(c.Ops) {
+		return
 	}
 	if c.Blob > 0 {
 		im := gen.Img{Fmt: "png", W: c.Blob, H: c.Blob, Pat: c.Blob*7 + len(c.Ops), Name: "blob.png"}
-		x.Doc.AddImageFromData(im.Bytes(), im.Name, document.ImageFormatPNG, im.W, im.H, nil)
+		if p, _ := kit.Try(func() { x.Doc.AddImageFromData(im.Bytes(), im.Name, document.ImageFormatPNG, im.W, im.H, nil) }); p != nil {
+			res.Label("build-panicked")
+			return
+		}
 	}
-	doc := x.Doc
-	// the target of the final save
-	path := filepath.Join(dir, "out.docx")
-	expectErr := false
-	switch c.Target {
-	case "nested":
-		path = filepath.Join(dir, "n1", "n 2", "名", "out.docx")
-	case "devfull":
-		path = "/dev/full"
-		expectErr = true
-	case "parent-is-file":
-		os.WriteFile(filepath.Join(dir, "f"), []byte("x"), 0o644)
-		path = filepath.Join(dir, "f", "out.docx")
-		expectErr = true
-	case "is-dir":
-		os.MkdirAll(filepath.Join(dir, "d.docx"), 0o755)
-		path = filepath.Join(dir, "d.docx")
-		expectErr = true
+	// objects replaced by reopen / template / Markdown calls stay alive: they are saved too
+	for _, d := range x.Side {
+		if d != nil && d != x.Doc {
+			sides = append(sides, d)
+		}
+	}
+	if x.Replaced > 0 {
+		res.Label("source:object-replaced-by-reopen/template/markdown")
+	}
+	return x, sides, src, true
+}
+
+func run(c Case) *kit.Result {
+	res := &kit.Result{}
+	rs := &runState{res: res}
+	if os.Getenv("C05_TIMING") != "" { // development aid: where the time of a run goes
+		t0, f0 := time.Now(), faultPoints
+		defer func() {
+			fmt.Fprintf(os.Stderr, "TIMING %6dms faults=%-5d %v\n", time.Since(t0).Milliseconds(), faultPoints-f0, res.Labels)
+		}()
+	}
+	document.VerifResetGlobals()
+	os.Chdir(homeDir)
+	dir, _ := os.MkdirTemp(kit.Scratch, "c05-")
+	defer os.RemoveAll(dir)
+	x, sides, src, ok := build(res, c, dir)
+	if !ok {
+		return res
+	}
+	// the second object
+	objs := []*ops.Exec{x}
+	if c.Two {
+		y := ops.NewExec(filepath.Join(dir, "o"))
+		os.MkdirAll(y.Dir, 0o755)
+		for _, op := range c.Other {
+			if p, _ := kit.Try(func() { doOp(y, op) }); p != nil {
+				res.Label("build-panicked")
+				return res
+			}
+		}
+		objs = append(objs, y)
+		res.Label("objects:two")
 	}
 	res.Label("target:" + c.Target)
 
-	// the save history of this object before the final save
+	// the save history before the final save
 	mainPath := filepath.Join(dir, "out.docx")
 	prevPath := mainPath
-	sizeAt := map[string]int64{}    // path -> size of the file the last successful save left there
-	var lastNames map[string]string // part map of the last successful save
-	noteSave := func(p string, L int64, want map[string]string) {
+	sizeAt := map[string]int64{}             // path -> size of the file the last successful save left there
+	lastNames := map[int]map[string]string{} // object -> part map of its last successful save
+	lastObj := -1
+	noteSave := func(obj int, p string, L int64, want map[string]string) {
 		if old, ok := sizeAt[p]; ok {
 			res.Label("history:same-path-again")
 			if L < old {
@@ -463,38 +547,61 @@ func run(c Case) *kit.Result {
 			}
 		}
 		sizeAt[p] = L
-		if lastNames != nil {
+		if ln := lastNames[obj]; ln != nil {
 			for k := range want {
-				if _, ok := lastNames[k]; !ok {
+				if _, ok := ln[k]; !ok {
 					res.Label("history:parts-added-between-saves")
 					break
 				}
 			}
 		}
-		lastNames = want
+		lastNames[obj] = want
+		if lastObj >= 0 && lastObj != obj {
+			res.Label("history:objects-saved-alternately")
+		}
+		lastObj = obj
 	}
 	if len(c.Stages) == 0 {
 		res.Label("history:first-save")
 	} else {
 		res.Label("history:multi-save")
 	}
+	if len(c.Stages) >= 9 {
+		res.Label("history:10-or-more-saves")
+	}
 	for i, st := range c.Stages {
-		sp := mainPath
+		oi := 0
+		if st.Obj > 0 && len(objs) > 1 {
+			oi = 1
+		}
+		ex := objs[oi]
+		doc := ex.Doc
+		tg := absTarget("plain", mainPath)
 		switch st.Path {
 		case "prev":
-			sp = prevPath
+			tg = absTarget("plain", prevPath)
 		case "new":
-			sp = filepath.Join(dir, fmt.Sprintf("s%d.docx", i))
+			tg = absTarget("plain", filepath.Join(dir, fmt.Sprintf("s%d.docx", i)))
 		case "newdir":
-			sp = filepath.Join(dir, fmt.Sprintf("d%d", i), "sub dir", "s.docx")
+			tg = absTarget("nested", filepath.Join(dir, fmt.Sprintf("d%d", i), "sub dir", "s.docx"))
+		case "rel":
+			tg = target{kind: "relative", arg: filepath.Join(fmt.Sprintf("r%d", i), "s.docx"), cwd: dir}
+			tg.read = filepath.Join(dir, tg.arg)
 		}
-		prevPath = sp
-		what := fmt.Sprintf("save %d of the same object (%s path)", i+1, st.Path)
-		if st.Fault > 0 {
+		what := fmt.Sprintf("save %d of the history (object %d, %s path)", i+1, oi, st.Path)
+		if st.Path == "bad" {
+			// a save that cannot succeed; the object is used on afterwards
+			bt := mkTarget([]string{"devfull", "is-dir", "parent-is-file", "empty"}[i%4], dir, "")
+			res.Label("history:failed-save-to-unusable-target")
+			if !rs.failingSave(doc, bt, what) {
+				return res
+			}
+		} else if st.Fault > 0 {
 			// a save that hits a write fault, then the same save again without the fault (same path)
 			res.Label("history:fault-on-earlier-save")
-			before, err := doc.ToBytes()
-			if err != nil {
+			var before []byte
+			var err error
+			if p, _ := kit.Try(func() { before, err = doc.ToBytes() }); p != nil || err != nil {
 				res.Label("tobytes-error")
 				return res
 			}
@@ -504,14 +611,14 @@ func run(c Case) *kit.Result {
 				return res
 			}
 			N := int64(len(before)) * int64(st.Fault-1) / 1000
-			ferr, pan := saveWithLimit(doc, sp, N)
+			ferr, pan := saveWithLimit(doc, tg, N)
 			faultPoints++
 			if pan != nil {
 				res.Fail("C05.F0", "%s: Save panicked with a write fault at offset %d: %v", what, N, pan)
 				return res
 			}
-			faulty, _ := os.ReadFile(sp)
-			L, w2, ok := judgedSave(res, doc, sp, what+", repeated after the faulty attempt", false)
+			faulty, _ := os.ReadFile(tg.read)
+			L, w2, ok := rs.judgedSave(doc, tg, what+", repeated after the faulty attempt", false)
 			if !ok {
 				return res
 			}
@@ -539,74 +646,165 @@ func run(c Case) *kit.Result {
 					writeFaults++
 				}
 			}
-			noteSave(sp, L, w2)
+			prevPath = tg.read
+			noteSave(oi, tg.read, L, w2)
 		} else {
-			L, want, ok := judgedSave(res, doc, sp, what, st.NoBefore)
+			L, want, ok := rs.judgedSave(doc, tg, what, st.NoBefore)
 			if !ok {
 				return res
 			}
-			noteSave(sp, L, want)
+			prevPath = tg.read
+			noteSave(oi, tg.read, L, want)
 		}
 		for _, op := range st.Ops {
-			if p, _ := kit.Try(func() { doOp(x, op) }); p != nil {
+			if p, _ := kit.Try(func() { doOp(ex, op) }); p != nil {
 				res.Label("build-panicked")
 				return res
 			}
 		}
 	}
 
-	if c.Target == "existing" {
-		os.WriteFile(path, []byte(strings.Repeat("old content ", 20000)), 0o644)
+	// the final save of the judged object
+	doc := x.Doc
+	tg := mkTarget(c.Target, dir, src)
+	if tg.kind != c.Target {
+		res.Label("target:fell-back-to-plain")
 	}
-	if expectErr {
-		serr, pan := saveWithLimit(doc, path, -1)
-		controls++
-		if pan != nil {
-			res.Fail("C05.F0", "Save panicked: %v", pan)
+	if tg.wantErr {
+		if !rs.failingSave(doc, tg, "final save") {
 			return res
 		}
-		res.Eval("C05.F2")
-		if serr == nil {
-			res.Fail("C05.F2", "Save to %s target %q returned nil although the target cannot hold the file", c.Target, path)
-		}
-		if c.Target != "devfull" {
-			return res
-		}
-		path = filepath.Join(dir, "out.docx")
+		// the object is used on: the same save to an ordinary path
+		tg = plainTarget(dir)
 	}
-	L, want, ok := judgedSave(res, doc, path, "final save", c.NoBefore)
+	L, want, ok := rs.judgedSave(doc, tg, "final save", c.NoBefore)
 	if !ok {
 		return res
 	}
-	noteSave(path, L, want)
+	noteSave(0, tg.read, L, want)
+	// the other objects of the case are saved (each judged the same way), then the judged object once more to the same target
+	if len(objs) > 1 {
+		sides = append(sides, objs[1].Doc)
+	}
+	if len(sides) > 4 {
+		sides = sides[len(sides)-4:]
+	}
+	for i, sd := range sides {
+		stg := absTarget("plain", filepath.Join(dir, fmt.Sprintf("side%d.docx", i)))
+		if i%2 == 1 {
+			stg = absTarget("plain", tg.read) // over the file of the judged object
+			if tg.cwd != "" || tg.kind == "symlink" || tg.kind == "symlink-dangling" {
+				stg = tg
+			}
+		}
+		sl, sw, sok := rs.judgedSave(sd, stg, fmt.Sprintf("save of another live object (%d of %d) after the final save", i+1, len(sides)), i%2 == 0)
+		if sok {
+			noteSave(100+i, stg.read, sl, sw)
+		}
+		res.Label("history:other-object-saved-after-final-save")
+	}
+	if len(sides) > 0 {
+		if tg.kind == "existing" || tg.kind == "existing-short" || tg.kind == "existing-docx" || tg.kind == "symlink" {
+			tg = absTarget(tg.kind+"(second time)", tg.read)
+		}
+		if L, want, ok = rs.judgedSave(doc, tg, "final save repeated after other objects were saved", !c.NoBefore); !ok {
+			return res
+		}
+		noteSave(0, tg.read, L, want)
+	}
+	// what the saved package looks like
+	media, biggest, work := 0, 0, int64(0)
+	for k, v := range want {
+		if strings.HasPrefix(k, "word/media/") {
+			media++
+		}
+		if len(v) > biggest {
+			biggest = len(v)
+		}
+		work += int64(len(v)) + 3000
+	}
+	// work: bytes serialised and compressed by one Save plus a per-entry overhead - a deterministic measure of what one
+	// fault point costs. A case spends at most about 6e8 of it on its fault points (a shared, busy machine must get
+	// through the largest documents within the per-case time limit); the typical document (work about 60 000) is far below.
+	maxPts := int64(6e8) / (work + 1)
+	if maxPts < 120 {
+		maxPts = 120
+	}
+	if media >= 10 {
+		res.Label("size:10-or-more-media-parts")
+	}
+	if len(want) > 32 {
+		res.Label("size:>32-parts")
+	}
+	if len(want) > 64 {
+		res.Label("size:>64-parts")
+	}
+	if biggest > 65536 {
+		res.Label("size:part>64KiB")
+	}
+
 	// fault points
 	var offs []int64
-	if L <= 16384 {
-		// thorough: every offset. quick: every offset of the first 32 and the last 1024 bytes (last entries, central
-		// directory, end record - where a fault is seen only by the closing calls), the middle with a stride that keeps
-		// it to about 300 points (stride 1 up to L ~ 1350, at most 51 at 16 KB).
-		step, head, tail := int64(1), int64(0), L
+	switch {
+	case c.Light:
+		// a sparse sample: the case is about its history / target
+		seen := map[int64]bool{}
+		for _, n := range []int64{0, 1, 29, 30, L / 4, L / 2, L - L/4, L - 700, L - 400, L - 200, L - 100, L - 60, L - 23, L - 22, L - 21, L - 5, L - 2, L - 1} {
+			if n >= 0 && n < L && !seen[n] {
+				seen[n] = true
+				offs = append(offs, n)
+			}
+		}
+		for _, pm := range c.Sample {
+			if n := L * int64(pm) / 1000; len(offs) < 28 && !seen[n] {
+				seen[n] = true
+				offs = append(offs, n)
+			}
+		}
+		sort.Slice(offs, func(i, j int) bool { return offs[i] < offs[j] })
+		res.Label("enumeration:light")
+	case L <= 16384:
+		// thorough: every offset. quick: every offset of the first 32 and the last 128 bytes (end record, last directory
+		// entries), every second one of the 896 before them (central directory, last entries - where a fault is seen only
+		// by the closing calls; the phase changes with the case), the middle with a stride that keeps it to about 100 points.
+		step, head, tail, fine, tstep := int64(1), int64(0), L, L, int64(1)
 		if kit.Tier != "thorough" {
-			head, tail = 32, L-1024
-			step = (tail - head + 299) / 300
+			head, tail, fine, tstep = 32, L-1024, L-128, 2
+			step = (tail - head + 99) / 100
 			if step < 1 {
 				step = 1
 			}
+		} else if L > maxPts && maxPts > 2200 {
+			// an expensive document: every offset of the first 32 and the last 1024 bytes, the rest evenly spaced
+			head, tail = 32, L-1024
+			step = (tail - head + (maxPts - 1100) - 1) / (maxPts - 1100)
+			res.Label("enumeration:thinned-in-the-middle(expensive document)")
+		} else if L > maxPts {
+			head, tail, fine, tstep = 32, L-1024, L-128, 2
+			step = (tail - head + 99) / 100
+			res.Label("enumeration:thinned-in-the-middle(expensive document)")
 		}
+		phase := int64(len(c.Ops)+len(c.Stages)+len(c.Sample)) % tstep
 		for n := int64(0); n < L; {
 			offs = append(offs, n)
-			if n < head || n >= tail {
+			switch {
+			case n < head || n >= fine:
 				n++
-			} else {
+			case n >= tail:
+				n += tstep
+				if n > fine {
+					n = fine
+				}
+			default:
 				n += step
 				if n > tail {
-					n = tail
+					n = tail + phase
 				}
 			}
 		}
 		offs = append(offs, L-1)
 		res.Label("enumeration:exhaustive")
-	} else {
+	default:
 		seen := map[int64]bool{}
 		add := func(n int64) {
 			if n >= 0 && n < L && !seen[n] {
@@ -618,8 +816,11 @@ func run(c Case) *kit.Result {
 		add(1)
 		add(L - 1)
 		add(L - 2)
+		for _, back := range []int64{22, 23, 60, 100, 200, 400, 700, 1000} {
+			add(L - back)
+		}
 		stride := int64(4096)
-		for L/stride > 200 {
+		for L/stride > int64(kit.Scale(80, 200)) || 3*(L/stride) > maxPts {
 			stride *= 2
 		}
 		for n := stride; n < L; n += stride {
@@ -641,21 +842,25 @@ func run(c Case) *kit.Result {
 		band = "large(>=64K)"
 	}
 	res.Label("band:" + band)
-	fpath := filepath.Join(dir, "fault.docx")
+	ftg := absTarget("plain", filepath.Join(dir, "fault.docx"))
+	if c.FaultOver {
+		res.Label("enumeration:faulty-saves-over-the-previous-attempt")
+	}
 	bad := 0
 	for _, n := range offs {
-		os.Remove(fpath)
-		serr, pan := saveWithLimit(doc, fpath, n)
+		if !c.FaultOver {
+			os.Remove(ftg.arg)
+		}
+		serr, pan := saveWithLimit(doc, ftg, n)
 		faultPoints++
 		res.Eval("C05.F2")
 		if pan != nil {
 			res.Fail("C05.F0", "Save panicked with a write fault at offset %d: %v", n, pan)
 			break
 		}
-		st, _ := os.Stat(fpath)
 		if serr == nil {
 			size := int64(-1)
-			if st != nil {
+			if st, _ := os.Stat(ftg.arg); st != nil {
 				size = st.Size()
 			}
 			if bad < 3 {
@@ -673,60 +878,153 @@ func run(c Case) *kit.Result {
 	if bad > 0 {
 		res.Count("fault_points_with_nil_error", bad)
 	}
-	// no-fault controls at and beyond L
+	// no-fault controls at and beyond L (after all the failed saves of this object)
 	for _, n := range []int64{L, L + 1, L + 4096} {
-		os.Remove(fpath)
-		serr, pan := saveWithLimit(doc, fpath, n)
+		if !c.FaultOver {
+			os.Remove(ftg.arg)
+		}
+		serr, pan := saveWithLimit(doc, ftg, n)
 		controls++
 		res.Eval("C05.F3")
 		if pan != nil || serr != nil {
 			res.Fail("C05.F3", "Save with a size limit of %d >= file size %d failed: %v %v", n, L, serr, pan)
 			continue
 		}
-		fb, _ := os.ReadFile(fpath)
+		fb, _ := os.ReadFile(ftg.arg)
 		if got, err := partMap(fb); err != nil {
 			res.Fail("C05.F1", "Save (limit %d, no fault) returned nil but file unreadable: %v", n, err)
 		} else if d := sameParts(want, got); d != "" {
 			res.Fail("C05.F1", "Save (limit %d, no fault) differs from ToBytes: %s", n, d)
+		} else if tr := trailing(fb); tr != 0 {
+			res.Fail("C05.F1", "Save (limit %d, no fault) returned nil but %d bytes follow the end record of the package", n, tr)
 		}
 	}
+	rs.checkKept("the fault enumeration")
 	res.Nontrivial = len(offs) > 2
-	res.Shape = fmt.Sprintf("%s|%s|ops=%d|L/512=%d|earlier-saves=%d", band, c.Target, len(c.Ops), L/512, len(c.Stages))
+	srcKind := c.Base
+	if srcKind == "" && len(c.Extra) > 0 {
+		srcKind = "min"
+	}
+	res.Shape = fmt.Sprintf("%s|%s|%s|ops=%d|L/512=%d|earlier-saves=%d|objs=%d", band, c.Target, srcKind, len(c.Ops), L/512, len(c.Stages), len(objs)+len(sides))
 	return res
+}
+
+// lightTargets: one cheap fixed case per target kind (a sparse fault sample each).
+func lightTargets() []Case {
+	var out []Case
+	para := ops.Op{K: "para", S: []string{"hello target"}}
+	for i, k := range []string{"existing-short", "existing-docx", "symlink", "symlink-dangling", "relative", "bare", "dotdot", "longname", "name-too-long", "empty", "unicode", "procfs", "is-dir"} {
+		c := Case{Ops: []ops.Op{para}, Target: k, Light: true, NoBefore: i%2 == 1, FaultOver: i%3 == 0}
+		if i%4 == 1 {
+			c.Stages = []Stage{{Path: "main", NoBefore: true, Ops: []ops.Op{{K: "c05big", I: []int{5, i, 1}}}}}
+		}
+		out = append(out, c)
+	}
+	return out
+}
+
+func fixedCases() []Case {
+	if os.Getenv("C05_NOFIXED") != "" { // development aid: what the generator finds on its own
+		return nil
+	}
+	para := ops.Op{K: "para", S: []string{"hello"}}
+	img := func(n int) ops.Op {
+		return ops.Op{K: "image", Img: &gen.Img{Fmt: "png", W: 3 + n, H: 4, Pat: n, Name: "p.png"}, I: []int{0, 0, 0, 0}, F: []float64{10, 10}, S: []string{"", "", ""}}
+	}
+	hdr := ops.Op{K: "header", I: []int{0}, S: []string{"head"}}
+	ftr := ops.Op{K: "footer", I: []int{1}, S: []string{"foot"}}
+	fn := ops.Op{K: "footnote", S: []string{"t", "note"}}
+	tbl := ops.Op{K: "table", I: []int{2, 2}, Grid: [][]string{{"a", "b"}, {"c", "d"}}}
+	fp := foreign.Minimal()
+	fp.W, fp.R, fp.OPCPrefix, fp.Stored, fp.CTLast = "ns0", "rel", "pr", true, true
+	fp.Parts = append(fp.Parts,
+		foreign.Part{Name: "word/media/Image1.PNG", Img: &gen.Img{Fmt: "png", W: 4, H: 4, Pat: 1, Name: "Image1.PNG"}, Kind: "media"},
+		foreign.Part{Name: "word/media/image1.png", Img: &gen.Img{Fmt: "png", W: 5, H: 4, Pat: 2, Name: "image1.png"}, Kind: "media"},
+		foreign.Part{Name: "customXml/item1.xml", XML: "<a/>", Kind: "customXml"})
+	fp.Defaults = append(fp.Defaults, foreign.Default{Ext: "png", CT: "image/png"}, foreign.Default{Ext: "PNG", CT: "image/png"})
+	cases := []Case{
+		{Ops: nil, Target: "plain"},
+		{Ops: []ops.Op{para}, Target: "devfull"},
+		{Ops: []ops.Op{para}, Blob: 60, Target: "existing", Sample: []int{3, 500, 999}},
+		{Ops: []ops.Op{para}, Blob: 200, Target: "nested", Sample: []int{1, 250, 777}},
+		{Ops: []ops.Op{para}, Target: "parent-is-file", Light: true},
+		{Ops: []ops.Op{para}, Target: "plain", Light: true, Extra: []Extra{{Name: "word/"}, {Name: "customXml/"}, {Name: "customXml/item1.xml"}, {Name: "extra.dat", Data: "x"}}},
+		// one object saved several times: parts appear between the saves (same path, other paths), a faulty save in between
+		{Ops: []ops.Op{para}, Target: "plain", Light: true, Stages: []Stage{
+			{Path: "main", Ops: []ops.Op{hdr, fn}},
+			{Path: "new", Fault: 501, Ops: []ops.Op{ftr, {K: "listitem", S: []string{"item"}, I: []int{1, 0, 1, 0}}, {K: "props", S: []string{"T", "S", "C", "K", "D", "en", "cat", "1", "2"}}}},
+			{Path: "prev", NoBefore: true, Ops: []ops.Op{{K: "endnote", S: []string{"t", "end"}}, {K: "notecfg", I: []int{1, 1}}, img(5)}},
+		}},
+		// grow, save, shrink, save to the same path: the second file is shorter than the one it replaces
+		{Ops: []ops.Op{para, {K: "c05big", I: []int{40, 7}}}, Target: "plain", NoBefore: true, Light: true, Stages: []Stage{
+			{Path: "main", Ops: []ops.Op{{K: "c05rmlast"}}},
+			{Path: "main", NoBefore: true, Ops: []ops.Op{{K: "c05big", I: []int{1, 3}}, {K: "c05rmlast"}, {K: "c05rmlast"}}},
+		}},
+		// --- widened domain ---
+		// another producer's package (other prefixes, stored entries, content types last, media names that differ only in
+		// case), opened from a path, edited and saved back in place
+		{Base: "foreign", Foreign: &fp, OpenVia: "path", Target: "inplace", Ops: []ops.Op{para, hdr}, Light: true,
+			Extra:  []Extra{{Name: "customXml/Item1.xml", Data: "<b/>"}, {Name: "word/Media/"}, {Name: "docProps/custom.xml", Size: 4097}},
+			Stages: []Stage{{Path: "new", NoBefore: true, Ops: []ops.Op{img(1)}}}},
+		// the library's own rich package reopened from memory; the written object stays alive and is saved after the reopened one
+		{Base: "own", Pre: []ops.Op{para, tbl, hdr, fn, img(2), {K: "heading", S: []string{"H"}, I: []int{1}}}, Ops: []ops.Op{ftr, para}, Target: "nested", Light: true, NoBefore: true,
+			Stages: []Stage{{Path: "main", Ops: []ops.Op{{K: "rmparaat", I: []int{1}}, {K: "endnote", S: []string{"t", "e"}}}}}},
+		// two objects saved alternately to the same and to different paths; their part sets differ
+		{Ops: []ops.Op{para, hdr}, Two: true, Other: []ops.Op{para, fn, img(3)}, Target: "plain", Light: true, Stages: []Stage{
+			{Obj: 0, Path: "main", Ops: []ops.Op{ftr}},
+			{Obj: 1, Path: "main", NoBefore: true, Ops: []ops.Op{{K: "c05big", I: []int{6, 1, 1}}}},
+			{Obj: 0, Path: "prev", NoBefore: true, Ops: []ops.Op{img(4)}},
+			{Obj: 1, Path: "new", Ops: []ops.Op{hdr}},
+			{Obj: 0, Path: "rel"},
+			{Obj: 1, Path: "bad", Ops: []ops.Op{para}},
+			{Obj: 0, Path: "bad"},
+		}},
+		// objects replaced by reopen / template rendering / Markdown conversion: every live object is saved
+		{Ops: []ops.Op{para, hdr, {K: "reopen", B: []bool{true}}, img(6), {K: "tpldoc", Data: &ops.Data{Vars: map[string]string{"a": "b"}}}, fn}, Target: "plain", Light: true},
+		{Ops: []ops.Op{para, {K: "md", S: []string{"# T\n\ntext **b**\n\n- i1\n- i2\n"}, B: []bool{true, true, false, false, false, false}, I: []int{3}}, ftr}, Target: "unicode", Light: true, NoBefore: true},
+		// counts and sizes: 12 pictures (image10, image11), 11 notes, 129 paragraphs, a text past 64 KiB with multi-byte characters
+		{Ops: []ops.Op{para, {K: "c05imgs", I: []int{12, 3}}}, Target: "plain", Light: true, Stages: []Stage{{Path: "main", NoBefore: true, Ops: []ops.Op{{K: "c05notes", I: []int{11, 0}}, {K: "c05notes", I: []int{10, 1}}}}}},
+		{Ops: []ops.Op{{K: "c05paras", I: []int{129}}, {K: "c05big", I: []int{65, 9, 1}}}, Target: "existing", Light: true, FaultOver: true},
+		// more than 64 parts: 70 foreign entries + 33 pictures
+		{Base: "own", Pre: []ops.Op{para, {K: "c05imgs", I: []int{33, 1}}}, Ops: []ops.Op{para}, Target: "plain", Light: true, Extra: manyExtras(70)},
+		// ten saves of one object, a picture added before each
+		{Ops: []ops.Op{para}, Target: "plain", Light: true, Stages: tenSaves()},
+	}
+	return append(cases, lightTargets()...)
+}
+
+func manyExtras(n int) []Extra {
+	out := []Extra{{Name: "customXml/"}, {Name: "word/media/image9.png", Data: "x"}, {Name: "word/media/image10.png", Data: "y"}}
+	for i := len(out); i < n; i++ {
+		out = append(out, Extra{Name: fmt.Sprintf("customXml/item%d.xml", i), Data: fmt.Sprintf("<i n=\"%d\"/>", i)})
+	}
+	return out
+}
+
+func tenSaves() []Stage {
+	var out []Stage
+	for i := 0; i < 11; i++ {
+		out = append(out, Stage{Path: []string{"main", "prev", "new"}[i%3], NoBefore: i%2 == 0,
+			Ops: []ops.Op{{K: "image", Img: &gen.Img{Fmt: "png", W: 2 + i, H: 3, Pat: i, Name: "same.png"}, I: []int{0, 0, 0, 0}, F: []float64{10, 10}, S: []string{"", "", ""}}}})
+	}
+	return out
 }
 
 func TestC05(t *testing.T) {
 	kit.Main(t, kit.Spec[Case]{
 		ID: "C05", Level: "fault_enumeration",
-		Rule: "per generated document (0-12 API ops on a new document or, in one case of three, on a document opened from a library-written package extended with 1-5 foreign zip entries - directory entries, zero-length parts, unknown parts; optionally a large incompressible image: three size bands) one unrestricted Save (L = file size) and one Save per fault point with the soft RLIMIT_FSIZE set to N: every N in [0,L) when L<=16384 (quick: every N of the first 32 and last 1024 bytes, about 300 evenly spaced ones between), else 0,1,L-2,L-1, every multiple of a 4096*2^k stride +-1 and 8-40 drawn offsets; controls N in {L, L+1, L+4096}; targets: plain, nested new directories, existing larger file, /dev/full, parent is a regular file, path is a directory. Save history: in about 3 of 4 cases the SAME object was saved 1-4 times before the final save (to the final path, the previous path, a fresh path or fresh directories; one stage in four first hits a write fault at a drawn offset and is then repeated on the same path), each earlier save followed by 0-4 edits drawn mostly from the calls that create package parts (headers/footers of all kinds, footnotes/endnotes, note settings, pictures, lists, document properties, custom/table styles) plus body growth (incl. 4-48 KB paragraphs) and shrinkage (remove paragraph/element/last element, remove note); every save of the history is judged like the final one. A case is non-trivial when it has >2 fault points with 0<=N<L; distinct = (size band, target kind, op count, L/512).",
-		Gen:  genCase, Run: run, Findings: findings, CaseLimit: 120e9,
-		MustSee: map[string]float64{"history:multi-save": 0.3, "history:parts-added-between-saves": 0.15, "history:same-path-again": 0.15, "history:first-save": 0.1},
-		Fixed: func() []Case {
-			para := ops.Op{K: "para", S: []string{"hello"}}
-			return []Case{
-				{Ops: nil, Target: "plain"},
-				{Ops: []ops.Op{para}, Target: "devfull"},
-				{Ops: []ops.Op{para}, Blob: 60, Target: "existing", Sample: []int{3, 500, 999}},
-				{Ops: []ops.Op{para}, Blob: 200, Target: "nested", Sample: []int{1, 250, 777}},
-				{Ops: []ops.Op{para}, Target: "parent-is-file"},
-				{Ops: []ops.Op{para}, Target: "plain", Extra: []Extra{{Name: "word/"}, {Name: "customXml/"}, {Name: "customXml/item1.xml"}, {Name: "extra.dat", Data: "x"}}},
-				// one object saved several times: parts appear between the saves (same path, other paths), a faulty save in between
-				{Ops: []ops.Op{para}, Target: "plain", Stages: []Stage{
-					{Path: "main", Ops: []ops.Op{{K: "header", I: []int{0}, S: []string{"head"}}, {K: "footnote", S: []string{"t", "note"}}}},
-					{Path: "new", Fault: 501, Ops: []ops.Op{{K: "footer", I: []int{1}, S: []string{"foot"}}, {K: "listitem", S: []string{"item"}, I: []int{1, 0, 1, 0}}, {K: "props", S: []string{"T", "S", "C", "K", "D", "en", "cat", "1", "2"}}}},
-					{Path: "prev", NoBefore: true, Ops: []ops.Op{{K: "endnote", S: []string{"t", "end"}}, {K: "notecfg", I: []int{1, 1}}, {K: "image", Img: &gen.Img{Fmt: "png", W: 9, H: 7, Pat: 5, Name: "p.png"}, I: []int{0, 0, 0, 0}, F: []float64{10, 10}, S: []string{"", "", ""}}}},
-				}},
-				// grow, save, shrink, save to the same path: the second file is shorter than the one it replaces
-				{Ops: []ops.Op{para, {K: "c05big", I: []int{40, 7}}}, Target: "plain", NoBefore: true, Stages: []Stage{
-					{Path: "main", Ops: []ops.Op{{K: "c05rmlast"}}},
-					{Path: "main", NoBefore: true, Ops: []ops.Op{{K: "c05big", I: []int{1, 3}}, {K: "c05rmlast"}, {K: "c05rmlast"}}},
-				}},
-			}
-		},
+		Rule: "per generated document one unrestricted Save (L = file size) and one Save per fault point with the soft RLIMIT_FSIZE set to N: every N in [0,L) when L<=16384 (an expensive document - more than about 6e8/L bytes serialised per Save - keeps every N of the first 32 and last 1024 bytes and gets the rest evenly thinned; quick: every N of the first 32 and last 128 bytes, every second one of the 896 before with a phase that changes from case to case, about 100 evenly spaced ones between), else 0,1,L-2,L-1, eight offsets in the last 1000 bytes, every multiple of a 4096*2^k stride +-1 and 8-40 drawn offsets; one case in three takes a sparse sample of about 25 offsets instead (it is about its history / target); controls N in {L, L+1, L+4096}. Document: 0-12 API ops (incl. reopen / template rendering / Markdown conversion, which replace the object - the replaced objects stay alive and are saved after the final save) on a new document, or on a document opened (OpenFromMemory, or Open from a path) from the library's minimal package, from the package the library wrote for a generated document, or from a generated package of another producer (other prefixes, stored entries, absolute targets, several sections, odd media names), each optionally extended with 1-5 (rarely 33-70) foreign zip entries: directory entries, zero-length parts, unknown parts, names that differ only in case or are prefixes of one another, names the library generates itself (image9/image10, header1), non-ASCII names, data of 4095-70000 bytes; optionally a large incompressible image (three size bands); optionally edits that cross counts (10-12, rarely 17/33/65 pictures or notes, up to 129 paragraphs) and a 63-130 KiB text with multi-byte characters. Targets: plain, nested new directories, existing longer file / shorter file / complete larger package, symbolic link to a file, dangling symbolic link, relative path in new directories, bare file name, path with .. and ., 255-byte name, non-ASCII name, the path the document was opened from; unusable targets (/dev/full, parent is a regular file, path is a directory, 256-byte name, empty path, directory below /proc) must give an error and the object is saved to an ordinary path afterwards. Save history: in about 3 of 4 cases the object was saved 1-4 (rarely 10-12) times before the final save (to the final path, the previous path, a fresh path, fresh directories, a relative path; one stage in four first hits a write fault at a drawn offset and is then repeated on the same path; one in ten goes to an unusable target and must fail), each save followed by 0-4 edits drawn mostly from the calls that create package parts plus body growth and shrinkage; in one case of four a second, independent Document object is saved and edited in some of the stages (alternately with the judged one, also to the same path) and once more between two final saves of the judged object; every save of every object is judged like the final one. A case is non-trivial when it has >2 fault points with 0<=N<L; distinct = (size band, target kind, source, op count, L/512, saves, objects).",
+		Gen:  genCase, Run: run, Findings: findings, CaseLimit: 300e9,
+		MustSee: map[string]float64{"history:multi-save": 0.3, "history:parts-added-between-saves": 0.15, "history:same-path-again": 0.15, "history:first-save": 0.1,
+			"source:opened": 0.15, "source:foreign-package": 0.05, "objects:two": 0.05, "history:objects-saved-alternately": 0.05, "enumeration:exhaustive": 0.1},
+		Fixed: fixedCases,
 		Assumptions: []string{"write failures are modelled as 'the N-th byte of the output file cannot be written' (EFBIG through RLIMIT_FSIZE, ENOSPC through /dev/full); media errors on already written bytes and fsync failures are out of scope (the library never syncs)",
 			"zip entry order is map-iteration order and is not compared; parts are compared as a name->bytes map",
 			"a complete package ends the file: bytes after the end-of-central-directory record (leftovers of a longer file that was at the path) make a file unfaithful even when a lenient zip reader still finds the parts",
-			"after a Save that returned an error nothing is demanded of the target file; the object must still save faithfully afterwards"},
+			"after a Save that returned an error nothing is demanded of the target file; the object must still save faithfully afterwards",
+			"a save through a symbolic link is judged by what is read back through the same path (whether the link is followed or replaced is not prescribed)",
+			"a byte slice returned by ToBytes belongs to the caller: when a later Save/ToBytes of the same or another object changes it, the serialised bytes the caller holds and the saved file disagree (judged under F1)",
+			"every save is judged against ToBytes of the same object taken at that moment; nothing is demanded about an object staying unchanged while other objects are saved"},
 		Extra: func() map[string]interface{} {
 			return map[string]interface{}{"fault_points": faultPoints, "faults_surfacing_at_close": closeOnly, "faults_surfacing_in_write": writeFaults, "no_fault_controls": controls}
 		},
